@@ -238,7 +238,7 @@ func c13R2(h H) {
 
 func c13R4(h H) {
 	r := h.r
-	r.Rule("R4", "stderr never reaches the client: in streamReader.Read a record whose Type == Stderr is written to the client's stderr buffer and control returns to reading the next record without assigning it to the stdout buffer; in Handler.ServeHTTP the stderr buffer's content flows only into LogError", 2)
+	r.Rule("R4", "stderr never reaches the client: the demultiplexer as a decision table (E10) — streamReader.Read against scripted record sequences (six hand-picked scripts x read sizes 1, 2, 4; thorough tier: every sequence of up to three records, each stdout or stderr with 0-3 payload bytes, x read sizes 1-5) hands the reader exactly the stdout payloads in order and the error buffer exactly the stderr payloads; structurally, in streamReader.Read a record whose Type == Stderr is written to the client's stderr buffer and control returns to reading the next record without assigning it to the stdout buffer; in Handler.ServeHTTP the stderr buffer's content flows only into LogError", 2)
 	// the demultiplexer as a decision table (E10): the record source is an oracle that yields a scripted sequence of
 	// stdout/stderr records (or an error); stdout payload bytes are 1,2,3…, stderr payload bytes 101,102,…
 	if fn := h.fn("R4", fcPkg, "(*streamReader).Read"); fn != nil {
@@ -255,9 +255,30 @@ func c13R4(h H) {
 			{{true, 2}},              // then the stream ends with an error
 			{{true, 1}, {false, 1}}, // small reads
 		}
+		plens := []int{1, 2, 4}
+		if theTier == "thorough" {
+			// every script of up to three records, each stdout or stderr with 0-3 payload bytes; read sizes 1-5
+			scripts = nil
+			var kinds []rec
+			for _, e := range []bool{false, true} {
+				for n := 0; n <= 3; n++ {
+					kinds = append(kinds, rec{e, n})
+				}
+			}
+			for _, a := range kinds {
+				scripts = append(scripts, []rec{a})
+				for _, b := range kinds {
+					scripts = append(scripts, []rec{a, b})
+					for _, c := range kinds {
+						scripts = append(scripts, []rec{a, b, c})
+					}
+				}
+			}
+			plens = []int{1, 2, 3, 4, 5}
+		}
 		bad, nrun := "", 0
 		for si, script := range scripts {
-			for _, plen := range []int{1, 2, 4} {
+			for _, plen := range plens {
 				pos := 0
 				var errBytes []int64
 				streamErr := aptr{&aobj{name: "err:eof", typ: types.Typ[types.Int], f: map[string]aval{}}, ""}
@@ -315,7 +336,7 @@ func c13R4(h H) {
 				rd := &aobj{name: "reader", typ: rdT, f: map[string]aval{"c": aptr{client, ""}, "buf": anil{}}}
 				var gotOut []int64
 				desc := fmt.Sprintf("script %d (%v), reads of %d bytes", si, script, plen)
-				for call := 0; call < 8 && bad == ""; call++ {
+				for call := 0; call < 64 && bad == ""; call++ {
 					var cells []aval
 					for k := 0; k < plen; k++ {
 						cells = append(cells, aint(0))
@@ -457,7 +478,7 @@ func c13R5(h H) {
 // next record's header.
 func c13R6(h H) {
 	r := h.r
-	r.Rule("R6", "record framing as a decision table (E10): record.read is evaluated against a modelled byte source for every header with version {1,2}, type {stdout, stderr, end-request}, content length {0, 2, 5, 65535} and padding {0, 3, 255}, with the payload read succeeding or failing; on success it must have consumed exactly the 8-byte header and contentLength+paddingLength further bytes (computed without 16-bit wrap-around) and hand back exactly the first contentLength payload bytes; a wrong version and a failing read are errors, end-request is end of stream", 1)
+	r.Rule("R6", "record framing as a decision table (E10): record.read is evaluated against a modelled byte source for every header with version {1,2}, type {stdout, stderr, end-request}, content length {0, 2, 5, 65535} and padding {0, 3, 255} (thorough tier: 16 content lengths around 0, 255/256, 32767/32768, 65280 and 65535 x 9 paddings), with the payload read succeeding or failing; on success it must have consumed exactly the 8-byte header and contentLength+paddingLength further bytes (computed without 16-bit wrap-around) and hand back exactly the first contentLength payload bytes; a wrong version and a failing read are errors, end-request is end of stream", 1)
 	fn := h.fn("R6", fcPkg, "(*record).read")
 	if fn == nil {
 		return
@@ -466,8 +487,12 @@ func c13R6(h H) {
 	bad, nrun := "", 0
 	for _, version := range []int64{1, 2} {
 		for _, typ := range []int64{6, 7, 3} {
-			for _, cl := range []int64{0, 2, 5, 65535} {
-				for _, pl := range []int64{0, 3, 255} {
+			cls, pls := []int64{0, 2, 5, 65535}, []int64{0, 3, 255}
+			if theTier == "thorough" {
+				cls, pls = []int64{0, 1, 2, 5, 7, 8, 255, 256, 257, 32767, 32768, 65279, 65280, 65281, 65534, 65535}, []int64{0, 1, 3, 7, 8, 127, 128, 254, 255}
+			}
+			for _, cl := range cls {
+				for _, pl := range pls {
 					for _, fail := range []bool{false, true} {
 						if bad != "" {
 							continue
